@@ -43,9 +43,14 @@ type Col struct {
 	Text  string `json:"text,omitempty"` // the same, readable (informational)
 }
 
+// Case is one result set: Cols is its first row, More the later rows (same column types and
+// flags, other values). The whole set goes through ONE BuildBinaryResultSet call.
 type Case struct {
-	Cols []Col `json:"cols"`
+	Cols []Col   `json:"cols"`
+	More [][]Col `json:"more_rows,omitempty"`
 }
+
+func (c Case) rows() [][]Col { return append([][]Col{c.Cols}, c.More...) }
 
 const (
 	fNotNull  = 1 << 0
@@ -76,9 +81,9 @@ func (c Col) value() []byte {
 	return b
 }
 
-func (c Case) String() string {
+func rowString(cols []Col) string {
 	var parts []string
-	for _, col := range c.Cols {
+	for _, col := range cols {
 		v := col.Text
 		if col.Null {
 			v = "NULL"
@@ -86,6 +91,17 @@ func (c Case) String() string {
 		parts = append(parts, fmt.Sprintf("%s/flags=%#x %s", col.Name, col.Flags, v))
 	}
 	return "row(" + strings.Join(parts, " | ") + ")"
+}
+
+func (c Case) String() string {
+	if len(c.More) == 0 {
+		return rowString(c.Cols)
+	}
+	var parts []string
+	for _, r := range c.rows() {
+		parts = append(parts, rowString(r))
+	}
+	return fmt.Sprintf("resultset of %d rows [", len(parts)) + strings.Join(parts, " ; ") + "]"
 }
 
 // ---- text row ----
@@ -106,9 +122,9 @@ func lenencInt(v uint64) []byte {
 	return b
 }
 
-func textRow(c Case) []byte {
+func textRow(cols []Col) []byte {
 	var row []byte
-	for _, col := range c.Cols {
+	for _, col := range cols {
 		if col.Null {
 			row = append(row, 0xfb)
 			continue
@@ -296,37 +312,48 @@ func clip(b []byte) string {
 
 type verdict struct {
 	kind, detail string
-	col          int // column the violation is attributed to
+	row, col     int // row and column the violation is attributed to
 	outcome      string
 	built        bool
 }
 
 func run(c Case) (v verdict) {
+	rows := c.rows()
 	fields := make([]*mysql.Field, len(c.Cols))
 	cols := make([]bp.Column, len(c.Cols))
 	for i, col := range c.Cols {
 		fields[i] = &mysql.Field{Name: []byte(fmt.Sprintf("c%d", i)), Type: col.Type, Flag: col.Flags}
 		cols[i] = bp.Column{Type: col.Type, Unsigned: col.Flags&fUnsigned != 0}
 	}
-	var row []byte
+	for ri, r := range rows {
+		if len(r) != len(c.Cols) {
+			ev.Fatalf("harness: row %d has %d columns, the field list %d", ri, len(r), len(c.Cols))
+		}
+		for i := range r {
+			if r[i].Type != c.Cols[i].Type || r[i].Flags != c.Cols[i].Flags {
+				ev.Fatalf("harness: row %d column %d changes type/flags", ri, i)
+			}
+		}
+	}
+	var built []mysql.RowData
 	var gerr error
 	stage := "ParseText"
 	pm := ev.Catch(func() {
-		var vals []interface{}
-		vals, gerr = mysql.RowData(textRow(c)).ParseText(fields)
-		if gerr != nil {
-			return
+		values := make([][]interface{}, 0, len(rows))
+		for _, r := range rows {
+			vals, err := mysql.RowData(textRow(r)).ParseText(fields)
+			if err != nil {
+				gerr = err
+				return
+			}
+			values = append(values, vals)
 		}
 		stage = "BuildBinaryResultSet"
-		res := &mysql.Result{Resultset: &mysql.Resultset{Fields: fields, Values: [][]interface{}{vals}}}
+		res := &mysql.Result{Resultset: &mysql.Resultset{Fields: fields, Values: values}}
 		if gerr = res.BuildBinaryResultSet(); gerr != nil {
 			return
 		}
-		if len(res.RowDatas) != 1 {
-			gerr = fmt.Errorf("harness: %d rows built", len(res.RowDatas))
-			return
-		}
-		row = res.RowDatas[0]
+		built = res.RowDatas
 	})
 	switch {
 	case pm != nil:
@@ -337,42 +364,57 @@ func run(c Case) (v verdict) {
 		return
 	}
 	v.built = true
+	if len(built) != len(rows) {
+		v.kind, v.row, v.col = "row_count", 0, 0
+		v.detail = fmt.Sprintf("%d text rows went in, the binary result set has %d rows", len(rows), len(built))
+		return
+	}
+	// every row of the set is decoded on its own and compared with ITS text row
+	for ri, r := range rows {
+		if kind, col, detail := judgeRow(r, cols, built[ri]); kind != "" {
+			v.kind, v.row, v.col = kind, ri, col
+			if len(rows) > 1 {
+				detail = fmt.Sprintf("row %d of %d: %s", ri, len(rows), detail)
+			}
+			v.detail = detail
+			return
+		}
+	}
+	v.outcome = "same value"
+	return
+}
+
+// judgeRow attributes a violation to the FIRST column that is wrong: a column decoded before
+// the point of failure may already differ from its text value, and only if all decoded columns
+// agree is the column at which decoding stopped (or, for left-over bytes, the last non-NULL
+// column) to blame.
+func judgeRow(text []Col, cols []bp.Column, row []byte) (kind string, at int, detail string) {
 	vals, failedAt, derr := bp.DecodeRow(cols, row)
-	// Attribute a violation to the FIRST column that is wrong: a column decoded before the
-	// point of failure may already differ from its text value (an ENUM without length prefix
-	// swallows its neighbours), and only if all decoded columns agree is the column at which
-	// decoding stopped (or, for left-over bytes, the last non-NULL column) to blame.
 	for i, val := range vals {
-		col := c.Cols[i]
+		col := text[i]
 		switch {
 		case col.Null && val.Kind != bp.KNull:
-			v.kind, v.col, v.detail = "null_mismatch", i, fmt.Sprintf("column %d is NULL in the text row but carries a value in the binary row %x", i, clipRow(row))
-			return
+			return "null_mismatch", i, fmt.Sprintf("column %d is NULL in the text row but carries a value in the binary row %x", i, clipRow(row))
 		case !col.Null && val.Kind == bp.KNull:
-			v.kind, v.col, v.detail = "null_mismatch", i, fmt.Sprintf("column %d has a value in the text row but is NULL in the binary row %x", i, clipRow(row))
-			return
+			return "null_mismatch", i, fmt.Sprintf("column %d has a value in the text row but is NULL in the binary row %x", i, clipRow(row))
 		case col.Null:
 			continue
 		}
 		if d := compare(col, val); d != "" {
-			v.kind, v.col, v.detail = "wrong_value", i, fmt.Sprintf("column %d (%s): %s; binary row %x", i, col.Name, d, clipRow(row))
-			return
+			return "wrong_value", i, fmt.Sprintf("column %d (%s): %s; binary row %x", i, col.Name, d, clipRow(row))
 		}
 	}
 	if derr != nil {
-		v.kind = "undecodable_row"
-		v.col = failedAt
-		if failedAt >= len(c.Cols) {
-			v.col = len(c.Cols) - 1
-			for v.col > 0 && c.Cols[v.col].Null {
-				v.col--
+		at = failedAt
+		if failedAt >= len(text) {
+			at = len(text) - 1
+			for at > 0 && text[at].Null {
+				at--
 			}
 		}
-		v.detail = fmt.Sprintf("binary row %x does not decode: %v", clipRow(row), derr)
-		return
+		return "undecodable_row", at, fmt.Sprintf("binary row %x does not decode: %v", clipRow(row), derr)
 	}
-	v.outcome = "same value"
-	return
+	return "", 0, ""
 }
 
 func clipRow(b []byte) []byte {
@@ -384,18 +426,34 @@ func clipRow(b []byte) []byte {
 
 func runCase(r *ev.Run, c Case) {
 	v := run(c)
+	rows := c.rows()
 	r.Add("evaluations", 1)
-	r.Add(fmt.Sprintf("rows_with_%d_columns", len(c.Cols)), 1)
-	nonNull := 0
-	for _, col := range c.Cols {
-		if !col.Null {
-			nonNull++
+	if len(rows) == 1 {
+		r.Add(fmt.Sprintf("rows_with_%d_columns", len(c.Cols)), 1)
+	} else {
+		r.Add(fmt.Sprintf("resultsets_of_%d_rows", len(rows)), 1)
+		r.Add("rows_in_multi_row_resultsets", int64(len(rows)))
+	}
+	nonNull, nullThenValue := 0, false
+	for ri, row := range rows {
+		for i, col := range row {
+			if !col.Null {
+				nonNull++
+				for _, earlier := range rows[:ri] {
+					if earlier[i].Null {
+						nullThenValue = true
+					}
+				}
+			}
 		}
 	}
 	if v.built && nonNull > 0 {
 		r.Distinct("nontrivial", c.String())
 	}
-	if len(c.Cols) == 1 {
+	if v.built && nullThenValue {
+		r.Add("resultsets_with_null_then_value_in_a_column", 1)
+	}
+	if len(rows) == 1 && len(c.Cols) == 1 {
 		col := c.Cols[0]
 		o := v.outcome
 		if v.kind != "" {
@@ -408,17 +466,19 @@ func runCase(r *ev.Run, c Case) {
 		r.Distinct("outcomes", fmt.Sprintf("%s|flags=%#x%s|%s", col.Name, col.Flags, null, o))
 	}
 	if v.kind != "" {
-		col := c.Cols[v.col]
+		text := rows[v.row]
+		col := text[v.col]
 		// A raw (unprefixed) ENUM/SET value shifts every byte after it, and by coincidence its
 		// own decoded value can even equal the text (ENUM "" followed by an empty string), so
-		// the mechanism is named by "a non-NULL ENUM/SET column at or before the first wrong one".
+		// that mechanism is named by "a non-NULL ENUM/SET column at or before the first wrong one".
 		upstream := "no"
 		for i := 0; i <= v.col; i++ {
-			if !c.Cols[i].Null && (c.Cols[i].Type == bp.TEnum || c.Cols[i].Type == bp.TSet) {
+			if !text[i].Null && (text[i].Type == bp.TEnum || text[i].Type == bp.TSet) {
 				upstream = "yes"
 			}
 		}
-		f := map[string]string{"kind": v.kind, "coltype": col.Name, "valueclass": "-", "columns": strconv.Itoa(len(c.Cols)), "enum_set_upstream": upstream}
+		f := map[string]string{"kind": v.kind, "coltype": col.Name, "valueclass": "-", "columns": strconv.Itoa(len(c.Cols)),
+			"enum_set_upstream": upstream, "rows": strconv.Itoa(len(rows)), "row": strconv.Itoa(v.row)}
 		if !col.Null {
 			f["valueclass"] = valueClass(col.Type, string(col.value()))
 		}
@@ -522,6 +582,133 @@ func valuesFor(s typeSpec, flags uint16) []string {
 	return out
 }
 
+// colSpec is a column of a multi-row result set: its non-NULL cell in row k is vals[k%len(vals)].
+type colSpec struct {
+	t     byte
+	flags uint16
+	vals  []string
+}
+
+func (cs colSpec) cell(row int, null bool) Col {
+	if null {
+		return nullCol(cs.t, cs.flags)
+	}
+	return mkCol(cs.t, cs.flags, cs.vals[row%len(cs.vals)])
+}
+
+// setsOver returns every result set of exactly nRows rows over the field list: every cell of
+// every row is independently NULL or a value (all 2^(cols*rows) NULL patterns, so every
+// ordered pair / triple of rows, both orders).
+func setsOver(fl []colSpec, nRows int) []Case {
+	n := len(fl) * nRows
+	var out []Case
+	for mask := 0; mask < 1<<uint(n); mask++ {
+		var rows [][]Col
+		for ri := 0; ri < nRows; ri++ {
+			var row []Col
+			for ci, cs := range fl {
+				row = append(row, cs.cell(ri, mask&(1<<uint(ri*len(fl)+ci)) != 0))
+			}
+			rows = append(rows, row)
+		}
+		out = append(out, Case{Cols: rows[0], More: rows[1:]})
+	}
+	return out
+}
+
+// multiRowSets: result sets of 2 and 3 rows built by ONE BuildBinaryResultSet call (state that
+// the builder carries from one row to the next — NULL bitmap, row buffer — is only visible
+// here).
+func multiRowSets(r *ev.Run, types []typeSpec) []Case {
+	var specs []colSpec
+	for _, s := range types {
+		if len(s.reps) == 0 {
+			continue
+		}
+		fl := uint16(0)
+		if s.unsigned != nil && !strings.HasPrefix(s.reps[0], "-") && s.t != bp.TYear {
+			allPos := true
+			for _, v := range s.reps {
+				allPos = allPos && !strings.HasPrefix(v, "-")
+			}
+			if allPos {
+				fl = fUnsigned
+			}
+		}
+		specs = append(specs, colSpec{t: s.t, flags: fl, vals: s.reps})
+	}
+	r.Set("multi_row_column_specs", len(specs))
+	var cases []Case
+	// 1 column: every type, 2 and 3 rows, every NULL pattern
+	for _, a := range specs {
+		cases = append(cases, setsOver([]colSpec{a}, 2)...)
+		cases = append(cases, setsOver([]colSpec{a}, 3)...)
+	}
+	// 2 columns: every ordered pair of types; 2 rows (16 patterns) and 3 rows (64 patterns)
+	for _, a := range specs {
+		for _, b := range specs {
+			cases = append(cases, setsOver([]colSpec{a, b}, 2)...)
+			cases = append(cases, setsOver([]colSpec{a, b}, 3)...)
+		}
+	}
+	// 3 columns over a sublist (fixed-width, lenenc, temporal, decimal ...): 2 rows (64 patterns);
+	// 3 rows (512 patterns) over a shorter sublist (thorough: over the whole sublist)
+	var sub []colSpec
+	for _, cs := range specs {
+		switch cs.t {
+		case bp.TTiny, bp.TLonglong, bp.TFloat, bp.TNewDecimal, bp.TVarString, bp.TBlob, bp.TDate, bp.TDatetime, bp.TTime, bp.TEnum:
+			sub = append(sub, cs)
+		}
+	}
+	short := sub
+	if r.Quick() && len(short) > 4 {
+		short = nil
+		for _, cs := range sub {
+			switch cs.t {
+			case bp.TTiny, bp.TVarString, bp.TDatetime, bp.TNewDecimal:
+				short = append(short, cs)
+			}
+		}
+	}
+	r.Set("multi_row_three_column_types", len(sub))
+	r.Set("multi_row_three_column_types_for_three_rows", len(short))
+	for _, a := range sub {
+		for _, b := range sub {
+			for _, c := range sub {
+				cases = append(cases, setsOver([]colSpec{a, b, c}, 2)...)
+			}
+		}
+	}
+	for _, a := range short {
+		for _, b := range short {
+			for _, c := range short {
+				cases = append(cases, setsOver([]colSpec{a, b, c}, 3)...)
+			}
+		}
+	}
+	// wide: n TINY columns, 2 rows, each row with none / all / exactly one column NULL
+	// (bitmap byte borders at 6|7 and 14|15 columns), every ordered pair of such rows
+	for _, n := range []int{6, 7, 8, 14, 15} {
+		mk := func(row, nullAt int) []Col {
+			var cols []Col
+			for i := 0; i < n; i++ {
+				if nullAt == -1 || nullAt == i {
+					cols = append(cols, nullCol(bp.TTiny, 0))
+				} else {
+					cols = append(cols, mkCol(bp.TTiny, 0, strconv.Itoa((i+1+row*50)%128)))
+				}
+			}
+			return cols
+		}
+		for p := -2; p < n; p++ {
+			for q := -2; q < n; q++ {
+				cases = append(cases, Case{Cols: mk(0, p), More: [][]Col{mk(1, q)}})
+			}
+		}
+	}
+	return cases
+}
+
 func universe(r *ev.Run) []Case {
 	types := universeTypes()
 	var cases []Case
@@ -576,6 +763,7 @@ func universe(r *ev.Run) []Case {
 			}
 		}
 	}
+	cases = append(cases, multiRowSets(r, types)...)
 	// wide rows: the NULL bitmap crosses its byte borders (offset 2: 6|7 and 14|15 columns)
 	for _, n := range []int{5, 6, 7, 8, 13, 14, 15, 22, 23} {
 		for nullAt := -2; nullAt < n; nullAt++ { // -2: none NULL, -1: all NULL
@@ -610,7 +798,7 @@ func main() {
 		r.Capped(fmt.Sprintf("%d of %d rows", done, len(cases)))
 	}
 	r.Set("universe", len(cases))
-	r.Set("rule", "rows are enumerated, never sampled: (1 column) every wire type {TINY,SHORT,INT24,LONG,LONGLONG,YEAR,FLOAT,DOUBLE,NEWDECIMAL,DECIMAL,DATE,DATETIME,TIMESTAMP,TIME,BIT,JSON,ENUM,SET,GEOMETRY,VARCHAR,VAR_STRING,STRING,TINY/MEDIUM/LONG_BLOB,BLOB} x flag set {0,UNSIGNED,BINARY,NOT_NULL,UNSIGNED|NOT_NULL,BINARY|NOT_NULL,UNSIGNED|ZEROFILL} x every value of the type's boundary universe (width extremes per signedness, +-0, float/double extremes and denormals, 65-digit decimals, strings of 0/1/250/251/300/65535/65536/2^24 bytes with 00/ff/quote bytes, zero and partial-zero dates, 0/3/6 fractional digits, TIME +-838:59:59, >24h, negative sub-second) and NULL; (2 columns) every ordered pair of the representatives (one or two values per type + NULLs); (3 columns) every ordered triple of the representatives; (thorough only) every single-column case next to every representative in both orders; (wide) 5..23 TINY columns with none/all/each single column NULL so that the NULL bitmap crosses its byte borders. A case is non-trivial when Gaea produced a binary row (no error) holding at least one non-NULL value; distinct_nontrivial counts distinct such rows, distinct_outcomes the observed (type, flags, NULL, outcome) combinations of the single-column rows")
+	r.Set("rule", "rows are enumerated, never sampled: (1 column) every wire type {TINY,SHORT,INT24,LONG,LONGLONG,YEAR,FLOAT,DOUBLE,NEWDECIMAL,DECIMAL,DATE,DATETIME,TIMESTAMP,TIME,BIT,JSON,ENUM,SET,GEOMETRY,VARCHAR,VAR_STRING,STRING,TINY/MEDIUM/LONG_BLOB,BLOB} x flag set {0,UNSIGNED,BINARY,NOT_NULL,UNSIGNED|NOT_NULL,BINARY|NOT_NULL,UNSIGNED|ZEROFILL} x every value of the type's boundary universe (width extremes per signedness, +-0, float/double extremes and denormals, 65-digit decimals, strings of 0/1/250/251/300/65535/65536/2^24 bytes with 00/ff/quote bytes, zero and partial-zero dates, 0/3/6 fractional digits, TIME +-838:59:59, >24h, negative sub-second) and NULL; (2 columns) every ordered pair of the representatives (one or two values per type + NULLs); (3 columns) every ordered triple of the representatives; (thorough only) every single-column case next to every representative in both orders; (wide) 5..23 TINY columns with none/all/each single column NULL so that the NULL bitmap crosses its byte borders; (result sets of 2 and 3 rows, ONE BuildBinaryResultSet call each, every row decoded and compared with its own text row) every NULL/value pattern of all cells — hence every ordered pair and triple of rows, both orders — over: each single representative column, every ordered pair of representative columns, every ordered triple of a 10-type sublist with 2 rows and of a 4-type (thorough: 10-type) sublist with 3 rows, and 6/7/8/14/15 TINY columns with every ordered pair of rows having none/all/one column NULL; a non-NULL cell in row k takes the type's k-th representative value. A case is non-trivial when Gaea produced a binary row (no error) holding at least one non-NULL value; distinct_nontrivial counts distinct such rows, distinct_outcomes the observed (type, flags, NULL, outcome) combinations of the single-column rows")
 	for _, i := range []int{0, len(cases) / 5, len(cases) / 2, len(cases) - 1} {
 		r.Sample(cases[i])
 	}
